@@ -77,7 +77,7 @@ class Paths:
         hit = 1 if self.pred(n) else 0
 
         def bump(o):
-            return {(kk, min(CAP, c + hit)) if kk == FALL else (kk, c) for (kk, c) in o} if hit else o
+            return {(kk, min(CAP, c + hit)) for (kk, c) in o} if hit else o
 
         if k == "block":
             nodes = list(n["stmts"])
